@@ -1,10 +1,12 @@
 ---------------------------- MODULE MC_ChainGT ----------------------------
-(* Golden-ticket density (C05): a main chain 1..M in which every block carries a ticket,  *)
-(* and a side chain of K blocks forking after block F with EVERY ticket placement; the two *)
-(* branches are delivered in every interleaving that keeps each branch in order.           *)
+(* Golden-ticket density (C05): a main chain 1..M in which every block from MainFrom on   *)
+(* carries a ticket (MainFrom = 2: a dense chain; MainFrom = F: the window that straddles  *)
+(* the fork point holds exactly one ticket of the shared prefix), and a side chain of K    *)
+(* blocks forking after block F with EVERY ticket placement; the two branches are          *)
+(* delivered in every interleaving that keeps each branch in order.                        *)
 EXTENDS Chain, Json
 
-CONSTANTS M, K, F, MaxLen
+CONSTANTS M, K, F, MaxLen, MainFrom
 
 VARIABLE h
 mcvars == <<A, S, w, last, h>>
@@ -21,7 +23,7 @@ MkA(gtf) ==
 
 MCInit ==
     /\ \E gtf \in [Blocks -> BOOLEAN] :
-          /\ \A b \in 1..M : gtf[b] = (b > 1)
+          /\ \A b \in 1..M : gtf[b] = (b >= MainFrom)
           /\ A = MkA(gtf)
     /\ S = EmptyState /\ w = Idle
     /\ last = [b |-> None, res |-> "none", ok |-> TRUE]
